@@ -266,7 +266,8 @@ def entity_docs(canary_dir):
 
 ENT_SCRIPT = r"""
 import sys
-sys.path.insert(0, '/repo/src')
+import os
+sys.path.insert(0, os.environ.get('VERIF_REPO', '/repo') + '/src')
 from picosvg.svg import SVG
 doc = open(sys.argv[1]).read()
 try:
@@ -300,7 +301,7 @@ def run_entities(run):
 
                 _t.sleep(0.3)
             env = dict(os.environ)
-            env["PYTHONPATH"] = "/repo/src"
+            env["PYTHONPATH"] = os.environ.get("VERIF_REPO", "/repo") + "/src"
             try:
                 p = subprocess.run(cmd, capture_output=True, text=True, timeout=120, env=env)
                 out = p.stdout
